@@ -1,275 +1,70 @@
-(* C11 - release on disconnect under all schedules (positive after repairs 14a9701 and a58ac30):
-   a waiting caller whose event is not set is always *owed* a release: its entry is in txq / pending / active_requests
-   and some thread is still going to look there, or it is in the hand of a thread that sets the event next.
-   Once nobody owes anything any more (tx cannot transmit, rx has left its loop, every disconnect() that was entered
-   has completed) every waiting caller has its event set. *)
+(* C11 - release on disconnect under all schedules (positive after repairs 14a9701 and a58ac30). *)
 From Coq Require Import List Arith NArith Bool Lia.
 Import ListNotations.
-Require Import FV.Base.Util FV.C11.Model FV.C11.Lemmas.
+Require Import FV.Base.Util FV.C11.Model FV.C11.Lemmas FV.C11.ReleaseBase
+  FV.C11.ReleaseC FV.C11.ReleaseTx FV.C11.ReleaseRx FV.C11.ReleaseUs.
 
-Fixpoint memb_o (e : eid) (l : list (option eid)) : bool :=
-  match l with
-  | [] => false
-  | Some x :: r => Nat.eqb e x || memb_o e r
-  | None :: r => memb_o e r
-  end.
-
-Definition txl (s : state) : bool := match tx s with TStart | TGet | TPark _ | TSend _ => true | _ => false end.
-Definition rxl (s : state) : bool := match rx s with RDisc _ => false | _ => true end.
-Definition dT (s : state) : option dpc := match tx s with TDisc d => Some d | _ => None end.
-Definition dR (s : state) : option dpc := match rx s with RDisc d => Some d | _ => None end.
-Definition dU (s : state) : option dpc := match us s with UDisc d => Some d | _ => None end.
-Definition ob (p : dpc -> bool) (o : option dpc) : bool := match o with Some d => p d | None => false end.
-(* some thread is inside disconnect() at a program point satisfying p *)
-Definition ex (p : dpc -> bool) (s : state) : bool := ob p (dT s) || ob p (dR s) || ob p (dU s).
-
-(* before or inside the drain of txq *)
-Definition qst (d : dpc) : bool := match d with DShutSet | DQDrop | DQSet _ => true | _ => false end.
-(* past `if self.io: self.io.shutdown()` *)
-Definition past_pd (d : dpc) : bool := match d with DShutSet | DQDrop | DQSet _ | DExc => false | _ => true end.
-
-Definition txlive (s : state) : bool := txl s && negb (closed_local s).
-(* somebody will still look at txq: the tx thread while it can transmit, the rx thread (its disconnect is still to
-   come), or a thread that has not finished its drain *)
-Definition Wq (s : state) : bool := txlive s || rxl s || ex qst s.
-
-Definition wl (l : list cpc) (i : nat) : bool := match nth_error l i with Some CWait => true | _ => false end.
-Definition waiting (s : state) (i : nat) : bool := wl (cs s) i.
-
-(* inside disconnect(), before the release of active_requests is complete / before the release of pending is complete *)
-Definition ast (d : dpc) : bool := match d with DShutSet | DQDrop | DQSet _ | DMark | DJoinT | DJoinR | DRelA _ => true | _ => false end.
-Definition pst (d : dpc) : bool := match d with DFin | DExc => false | _ => true end.
-Definition jt (d : dpc) : bool := match d with DMark | DJoinT => true | _ => false end.
-Definition holdd (i : nat) (d : dpc) : bool := match d with DQSet e | DRelA e | DRelP e => Nat.eqb i e | _ => false end.
-Definition Wa (s : state) : bool := txlive s || rxl s || ex ast s.
-Definition Wp (s : state) : bool := txlive s || rxl s || ex pst s.
-(* the entry is in the hand of a thread: tx about to park it, rx about to re-queue it or to set its event,
-   a disconnect() about to set its event *)
-Definition hold (s : state) (i : nat) : bool :=
-  match tx s with TPark e => Nat.eqb i e | _ => false end
-  || match rx s with RReq e | RTopReq e | RSet e => Nat.eqb i e | _ => false end
-  || ex (holdd i) s.
-Definition owedb (s : state) (i : nat) : bool :=
-  memb_o i (txq s) && Wq s || memb i (pending s) && Wp s || memb i (vals (active s)) && Wa s || hold s i.
-
-Definition dn (l : list cpc) (i : nat) : bool := match nth_error l i with Some (CDone _) => true | _ => false end.
-
-Definition T (s : state) : Prop :=
-  forall i, waiting s i = true -> memb i (evset s) = false -> owedb s i = true.
-Definition I0 (s : state) : Prop := running s = true -> rxl s = true.
-Definition I3 (s : state) : Prop := io_set s = false -> closed_local s = true.
-Definition CL (s : state) : Prop := ex past_pd s = true -> closed_local s = true.
-Definition K (s : state) : Prop := closed_local s = true -> txl s = true -> ex jt s = true.
-Definition TXS (s : state) : Prop := txl s = true -> txset s = true.
-Definition I5 (s : state) : Prop := forall e, memb e (cleanup s) = true -> dn (cs s) e = true.
-Definition INV (s : state) : Prop := T s /\ I0 s /\ I3 s /\ CL s /\ K s /\ TXS s /\ I5 s.
-
-Ltac brk := repeat match goal with
-  | |- context[match ?x with _ => _ end] =>
-      lazymatch x with
-      | context[match _ with _ => _ end] => fail
-      | _ => destruct x eqn:?; simpl
-      end
-  end.
-
-Ltac unf := unfold cstep, caller_step, finish, tx_step, rx_step, user_step, tx_loop_top, tx_exit, rx_loop_top,
-  rx_finally, do_cleanup, dstep, post_drain, after_tx, rel_begin, rel_loop_in, d_enabled, tx_fin, rx_fin, set_ev.
-
-Lemma memb_o_app_some : forall i l e, memb_o i (l ++ [Some e]) = memb_o i l || Nat.eqb i e.
-Proof. induction l as [|[x|] l IH]; simpl; intros; rewrite ?IH, ?orb_false_r, ?orb_assoc; auto. Qed.
-Lemma memb_o_app_none : forall i l, memb_o i (l ++ [None]) = memb_o i l.
-Proof. induction l as [|[x|] l IH]; simpl; intros; rewrite ?IH; auto. Qed.
-Definition is_wait (c : cpc) : bool := match c with CWait => true | _ => false end.
-Lemma wl_set_nth : forall l j c0 c i, nth_error l j = Some c0 ->
-  wl (set_nth j c l) i = if Nat.eqb i j then is_wait c else wl l i.
+Lemma INV_step : forall R2R ERR reqs s x, INV s -> INV (cstep R2R ERR reqs s x).
 Proof.
-  unfold wl. induction l as [|x l IH]; intros j c0 c i H; destruct j; simpl in *; try discriminate.
-  - destruct i; simpl; auto; destruct c; auto.
-  - destruct i; simpl; auto. eapply IH; eauto.
+  intros R2R ERR reqs s [t a] H. pose proof H as [HT [H0 [H3 [HC [HK [HX H5]]]]]].
+  split; [|repeat split].
+  - destruct t; [apply step_T_c | apply step_T_tx | apply step_T_rx | apply step_T_us]; exact H.
+  - apply step_I0; assumption.
+  - apply step_I3; assumption.
+  - apply step_CL; assumption.
+  - apply step_K; assumption.
+  - apply step_TXS; assumption.
+  - apply step_I5; assumption.
 Qed.
 
-Lemma dn_set_nth : forall l j c0 c i, nth_error l j = Some c0 ->
-  dn (set_nth j c l) i = if Nat.eqb i j then cdone_b c else dn l i.
+Lemma wl_init : forall (reqs : list (str * str)) i, wl (map (fun _ => CPut) reqs) i = false.
 Proof.
-  unfold dn. induction l as [|x l IH]; intros j c0 c i H; destruct j; simpl in *; try discriminate.
-  - destruct i; simpl; auto; destruct c; auto.
-  - destruct i; simpl; auto. eapply IH; eauto.
-Qed.
-Lemma dn_wl : forall l i, dn l i = true -> wl l i = false.
-Proof. unfold dn, wl. intros l i. destruct (nth_error l i) as [[]|]; auto; discriminate. Qed.
-Lemma memb_app_one : forall i l e, memb i (l ++ [e]) = memb i l || Nat.eqb i e.
-Proof. induction l; simpl; intros; [destruct (Nat.eqb i e); auto|]. destruct (Nat.eqb i a); simpl; auto. Qed.
-Lemma vals_app_one : forall i l k e, memb i (vals (l ++ [(k, e)])) = memb i (vals l) || Nat.eqb i e.
-Proof. intros. unfold vals. rewrite map_app. simpl. apply memb_app_one. Qed.
-Lemma dpop_memb : forall i k l, memb i (vals l) =
-  memb i (vals (snd (dpop k l))) || match fst (dpop k l) with Some e => Nat.eqb i e | None => false end.
-Proof.
-  induction l as [|[k' e] r IH]; simpl; auto.
-  destruct (key_eqb k k'); simpl.
-  - rewrite orb_comm. reflexivity.
-  - destruct (dpop k r) as [x r']; simpl in *. rewrite IH. destruct (Nat.eqb i e); reflexivity.
-Qed.
-Lemma dremove_val_memb : forall i e l, Nat.eqb i e = false -> memb i (vals (dremove_val e l)) = memb i (vals l).
-Proof.
-  induction l as [|[k' e'] r IH]; simpl; intros H; auto.
-  destruct (Nat.eqb e e') eqn:E; simpl.
-  - apply Nat.eqb_eq in E. subst. rewrite H. reflexivity.
-  - rewrite IH by assumption. reflexivity.
-Qed.
-Lemma fold_remove_memb : forall i es l, memb i es = false ->
-  memb i (vals (fold_left (fun a e => dremove_val e a) es l)) = memb i (vals l).
-Proof.
-  induction es as [|e es IH]; simpl; intros l H; auto.
-  destruct (Nat.eqb i e) eqn:E; try discriminate. rewrite IH by assumption. apply dremove_val_memb; assumption.
-Qed.
-Lemma memb_rev : forall i l, memb i (rev l) = memb i l.
-Proof.
-  induction l; simpl; auto. rewrite memb_app_one, IHl. destruct (Nat.eqb i a); simpl; rewrite ?orb_true_r, ?orb_false_r; auto.
-Qed.
-Lemma popitem_memb : forall l e l', popitem l = Some (e, l') ->
-  forall i, memb i (vals l) = memb i (vals l') || Nat.eqb i e.
-Proof.
-  induction l as [|[k y] r IH]; simpl; intros e l' H i; try discriminate.
-  destruct (popitem r) as [[z r']|] eqn:E; inversion H; subst; simpl.
-  - rewrite (IH _ _ eq_refl). destruct (Nat.eqb i y); reflexivity.
-  - apply popitem_none in E. subst. simpl. destruct (Nat.eqb i _); reflexivity.
+  unfold wl. induction reqs as [|r l IH]; destruct i; simpl; auto.
 Qed.
 
-Lemma ob_facts : forall o, (ob qst o = true -> ob ast o = true) /\ (ob ast o = true -> ob pst o = true) /\
-  (ob jt o = true -> ob ast o = true).
-Proof. destruct o as [[]|]; simpl; auto. Qed.
-
-Section Rel.
-Variable R2R : list (str * str).
-Variable ERR : str.
-Variable reqs : list (str * str).
-
-Lemma step_I0 : forall s a, I0 s -> I0 (cstep R2R ERR reqs s a).
+Theorem INV_run : forall R2R ERR reqs sched, INV (run R2R ERR reqs sched).
 Proof.
-  intros s [t a] H. unfold I0, rxl in *. unfold cstep; simpl. destruct t.
-  - Time (unf; brk; auto).
-  - Time (unf; brk; auto; try discriminate).
-  - Time (unf; brk; auto; try discriminate).
-  - Time (unf; brk; auto; try discriminate).
-Qed.
-Ltac rw := repeat match goal with
-  | E : ?x = _, H : context[?x] |- _ =>
-      lazymatch x with
-      | tx _ => idtac | rx _ => idtac | us _ => idtac | txq _ => idtac | pending _ => idtac | active _ => idtac
-      | io_set _ => idtac | closed_local _ => idtac | running _ => idtac | txset _ => idtac | rxset _ => idtac
-      | nth_error _ _ => idtac
-      end; rewrite E in H
-  | E : ?x = _ |- context[?x] =>
-      lazymatch x with
-      | tx _ => idtac | rx _ => idtac | us _ => idtac | txq _ => idtac | pending _ => idtac | active _ => idtac
-      | io_set _ => idtac | closed_local _ => idtac | running _ => idtac | txset _ => idtac | rxset _ => idtac
-      | nth_error _ _ => idtac
-      end; rewrite E
-  end.
-Ltac fin := intros; simpl in *; unfold ex, dT, dR, dU, ob, txlive, txl, rxl in *; simpl in *; rw; simpl in *;
-  rewrite ?orb_true_iff, ?andb_true_iff, ?negb_true_iff, ?orb_false_iff, ?andb_false_iff, ?negb_false_iff in *;
-  try solve [intuition (try congruence; try discriminate)].
-
-Lemma step_I3 : forall s a, I3 s -> I3 (cstep R2R ERR reqs s a).
-Proof.
-  intros s [t a] H. unfold I3 in *. unfold cstep; simpl. destruct t.
-  - Time (unf; brk; fin).
-  - Time (unf; brk; fin).
-  - Time (unf; brk; fin).
-  - Time (unf; brk; fin).
+  intros R2R ERR reqs sched. unfold run.
+  assert (G : forall s, INV s -> INV (fold_left (cstep R2R ERR reqs) sched s)).
+  { induction sched as [|x r IH]; simpl; intros s H; auto. apply IH. apply INV_step. exact H. }
+  apply G. unfold INV, T, I0, I3, CL, K, TXS, I5, init, waiting; simpl. repeat split; auto; try discriminate.
+  intros i H. rewrite wl_init in H. discriminate.
 Qed.
 
-Lemma step_CL : forall s a, I3 s -> CL s -> CL (cstep R2R ERR reqs s a).
-Proof.
-  intros s [t a] H3 H. unfold I3, CL in *. unfold cstep; simpl. destruct t.
-  - Time (unf; brk; fin).
-  - Time (unf; brk; fin).
-  - Time (unf; brk; fin).
-  - Time (unf; brk; fin).
-Qed.
-Lemma rx_match_memb : forall i a m, memb i (vals a) =
-  memb i (vals (snd (rx_match R2R ERR a m))) ||
-  match fst (rx_match R2R ERR a m) with Some e => Nat.eqb i e | None => false end.
-Proof.
-  intros. unfold rx_match. pose proof (dpop_memb i (Some (m_action m, m_ident m)) a) as D.
-  destruct (dpop (Some (m_action m, m_ident m)) a) as [[e|] a'] eqn:E1; simpl in *; auto.
-  apply dpop_memb.
-Qed.
+(* nobody owes a release any more: the tx thread cannot transmit, the rx thread has left its loop, every
+   disconnect() that was entered has completed *)
+Definition quiescent (s : state) : Prop := Wp s = false.
 
-Lemma rx_match_memb' : forall a m i, memb i (vals a) =
-  memb i (vals (snd (rx_match R2R ERR a m))) ||
-  match fst (rx_match R2R ERR a m) with Some e => Nat.eqb i e | None => false end.
-Proof. intros. apply rx_match_memb. Qed.
+Lemma ob_pst_false : forall i o, ob pst o = false ->
+  ob qst o = false /\ ob ast o = false /\ ob jt o = false /\ ob (holdd i) o = false.
+Proof. intros i o. destruct o as [[]|]; simpl; intro H; try discriminate; auto. Qed.
 
-Ltac wsn := repeat match goal with
-  | E : nth_error ?l ?j = Some _, H : context[wl (set_nth ?j ?c ?l) ?i] |- _ => rewrite (wl_set_nth l j _ c i E) in H
-  | E : nth_error ?l ?j = Some _ |- context[wl (set_nth ?j ?c ?l) ?i] => rewrite (wl_set_nth l j _ c i E)
-  | E : nth_error ?l ?j = Some _, H : context[dn (set_nth ?j ?c ?l) ?i] |- _ => rewrite (dn_set_nth l j _ c i E) in H
-  | E : nth_error ?l ?j = Some _ |- context[dn (set_nth ?j ?c ?l) ?i] => rewrite (dn_set_nth l j _ c i E)
-  end.
-Ltac lst := repeat match goal with
-  | E : popitem ?l = Some (?e, ?l') |- _ => progress (rewrite (popitem_memb l e l' E) in * )
-  | E : popitem ?l = None |- _ => apply popitem_none in E
-  | E : rx_match R2R ERR ?a ?m = _ |- _ => progress (rewrite (rx_match_memb' a m) in * ); rewrite E in *
-  end.
-Ltac eqs := repeat match goal with
-  | H : context[Nat.eqb ?a ?b] |- _ =>
-      lazymatch type of H with
-      | Nat.eqb a b = _ => fail
-      | _ => destruct (Nat.eqb a b) eqn:?; simpl in *
-      end
-  | |- context[Nat.eqb ?a ?b] => destruct (Nat.eqb a b) eqn:?; simpl in *
-  end.
-Ltac props := rewrite ?orb_true_iff, ?andb_true_iff, ?negb_true_iff, ?orb_false_iff, ?andb_false_iff, ?negb_false_iff in *.
-Ltac finM := intros; simpl in *;
-  unfold waiting, owedb, hold, Wq, Wa, Wp, ex, dT, dR, dU, ob, txlive, txl, rxl in *; simpl in *;
-  rewrite ?memb_o_app_some, ?memb_o_app_none, ?memb_app_one, ?vals_app_one in *; wsn; lst; rw; simpl in *;
-  eqs; repeat match goal with H : Nat.eqb ?a ?b = true |- _ => apply Nat.eqb_eq in H; subst end;
-  unfold dn, wl in *; rw; simpl in *;
-  repeat match goal with H : ?x = ?x -> _ |- _ => specialize (H eq_refl) end;
-  repeat progress props; try solve [intuition (try congruence; try discriminate)].
-
-Lemma step_TXS : forall s a, TXS s -> TXS (cstep R2R ERR reqs s a).
+Lemma quiescent_no_owed : forall s i, K s -> quiescent s -> owedb s i = false.
 Proof.
-  intros s [t a] H. unfold TXS in *. unfold cstep; simpl. destruct t.
-  - Time (unf; brk; fin).
-  - Time (unf; brk; fin).
-  - Time (unf; brk; fin).
-  - Time (unf; brk; fin).
+  intros s i HK Q. unfold quiescent, Wp in Q.
+  apply orb_false_iff in Q. destruct Q as [Q Q3]. apply orb_false_iff in Q. destruct Q as [Q1 Q2].
+  unfold ex in Q3. apply orb_false_iff in Q3. destruct Q3 as [Q3 QU]. apply orb_false_iff in Q3. destruct Q3 as [QT QR].
+  destruct (ob_pst_false i _ QT) as [T1 [T2 [T3 T4]]].
+  destruct (ob_pst_false i _ QR) as [R1 [R2 [R3 R4]]].
+  destruct (ob_pst_false i _ QU) as [U1 [U2 [U3 U4]]].
+  assert (EJ : ex jt s = false) by (unfold ex; rewrite T3, R3, U3; reflexivity).
+  assert (TL : txl s = false).
+  { destruct (txl s) eqn:X; auto. unfold txlive in Q1. rewrite X in Q1. simpl in Q1.
+    apply negb_false_iff in Q1. unfold K in HK. rewrite (HK Q1 X) in EJ. discriminate. }
+  unfold owedb, Wq, Wa, Wp, hold, ex. rewrite Q1, Q2, QT, QR, QU, T1, R1, U1, T2, R2, U2, T4, R4, U4. simpl.
+  rewrite !andb_false_r. simpl.
+  unfold txl in TL. unfold rxl in Q2.
+  destruct (tx s); try discriminate; destruct (rx s); try discriminate; reflexivity.
 Qed.
 
-Lemma step_K : forall s a, I3 s -> CL s -> TXS s -> K s -> K (cstep R2R ERR reqs s a).
+(* RELEASE ON DISCONNECT: for every set of requests and every schedule, once the shutdown is complete every
+   caller that is still waiting has had its event set (its next step returns its reply or ConnectionError) *)
+Theorem release_on_disconnect : forall R2R ERR reqs sched,
+  let s := run R2R ERR reqs sched in
+  quiescent s -> forall i, waiting s i = true -> memb i (evset s) = true.
 Proof.
-  intros s [t a] H3 HC HT H. unfold I3, CL, TXS, K in *. unfold cstep; simpl. destruct t.
-  - Time (unf; brk; fin).
-  - Time (unf; brk; fin).
-  - Time (unf; brk; fin).
-  - Time (unf; brk; fin).
+  intros R2R ERR reqs sched s Q i W.
+  destruct (INV_run R2R ERR reqs sched) as [HT [_ [_ [_ [HK _]]]]]. fold s in HT, HK.
+  destruct (memb i (evset s)) eqn:E; auto.
+  specialize (HT i W E). rewrite quiescent_no_owed in HT by assumption. discriminate.
 Qed.
-
-Lemma step_I5 : forall s a, I5 s -> I5 (cstep R2R ERR reqs s a).
-Proof.
-  intros s [t a] H. unfold I5 in *. unfold cstep; simpl. destruct t.
-  - Time (unf; brk; intros q Hq; specialize (H q); finM).
-  - Time (unf; brk; intros q Hq; specialize (H q); finM).
-  - Time (unf; brk; intros q Hq; specialize (H q); finM).
-  - Time (unf; brk; intros q Hq; specialize (H q); finM).
-Qed.
-
-Lemma step_T : forall s a, INV s -> T (cstep R2R ERR reqs s a).
-Proof.
-  intros s [t a] [HT [H0 [H3 [HC [HK [HX H5]]]]]]. unfold T, I0, I3, CL, K, TXS in *. unfold cstep; simpl.
-  pose proof (ob_facts (dT s)) as [FT1 [FT2 FT3]]. pose proof (ob_facts (dR s)) as [FR1 [FR2 FR3]].
-  pose proof (ob_facts (dU s)) as [FU1 [FU2 FU3]].
-  destruct t.
-  - Time (unf; brk; intros j Hw He; specialize (HT j); finM).
-  - Time (unf; brk; intros j Hw He; specialize (HT j); finM).
-  - intros j. specialize (HT j). unfold waiting in HT.
-    assert (Hcl : wl (cs s) j = true -> memb j (rev (cleanup s)) = false).
-    { intro W. rewrite memb_rev. destruct (memb j (cleanup s)) eqn:C; auto. apply H5 in C. apply dn_wl in C. congruence. }
-    Time (unf; brk; intros Hw He; simpl in *; unfold waiting, owedb in *; simpl in *;
-          try rewrite (fold_remove_memb j _ _ (Hcl Hw)) in *; finM).
-  - Time (unf; brk; intros j Hw He; specialize (HT j); finM).
-Qed.
-End Rel.
-
